@@ -658,18 +658,17 @@ Proof.
   intros s. induction ts as [|t ts IH]; intros pending out errs F P O.
   - simpl. apply Forall_rev. destruct pending as [q|]; [constructor; auto | exact O].
   - inversion F as [|? ? Ht F']; subst.
+    assert (Hout' : Forall (ends_in_text s) (match pending with Some q => q :: out | None => out end)).
+    { destruct pending as [q|]; [constructor; auto | exact O]. }
     assert (Hyield : forall e, Forall (ends_in_text s)
               (fst (produce ts (Some t) (match pending with Some q => q :: out | None => out end) e))).
-    { intros e. apply IH; auto.
-      - intros q Hq. inversion Hq; subst. exact Ht.
-      - destruct pending as [q|]; [constructor; auto | exact O]. }
+    { intros e. apply IH; auto. intros q Hq. inversion Hq; subst. exact Ht. }
     simpl. destruct (t_kind t); try apply Hyield.
     destruct ((MAXI32_PLUS1 <? dec_value (t_raw t) 0)%N
-              || (dec_value (t_raw t) 0 =? MAXI32_PLUS1)%N
-                 && match pending with Some _ => false | None => true end); [apply Hyield|].
+              || (dec_value (t_raw t) 0 =? MAXI32_PLUS1)%N && negb (pending_is_minus pending));
+      [apply Hyield|].
     destruct (dec_value (t_raw t) 0 =? MAXI32_PLUS1)%N; [|apply Hyield].
     destruct pending as [q|]; [|apply Hyield].
-    destruct (is_minus q); [|apply Hyield].
     apply IH; auto.
     intros q' Hq'. inversion Hq'; subst; clear Hq'.
     destruct (P q eq_refl) as [Qs Qe]. destruct Ht as [Ts Te].
